@@ -806,6 +806,10 @@ impl Game {
                     let got = pending_of(npp.push_pull_state());
                     if exp != got {
                         rep.fail("C12", "status-after-step", self, format!("after {}: engine {:?} expected {:?}", enc_action(a), got, exp));
+                        // a wrong status makes the steps offered NEXT differ from the prefixes of legal turns (C01 speaks
+                        // about step sequences): a displacement booked as a pull needs no completion, a pull booked as a
+                        // push forces one
+                        rep.fail("C01", "status-after-step-breaks-turn-structure", self, format!("after {}: engine {:?} expected {:?}", enc_action(a), got, exp));
                     }
                     if exp != Pending::None {
                         rep.nontriv("C12", state_key(&nx));
